@@ -475,3 +475,58 @@ def describe(case):
     if 'cs' in d:
         out['coefficients'] = d['cs']
     return out
+
+
+# ---- extraction cross-check: the same cases evaluated inside Coq by vm_compute
+from tools import xenc
+COQ_IMPORTS = 'Base.XEnc Base.Mat Model.Subst Model.Gauss Model.Regress'
+XCHECK_N = 200
+
+
+def coq_term(case):
+    t = xenc.Toks(case.line)
+    cmd = t.word()
+    F = lambda x: xenc.coq_float(x) + '%float'
+    if cmd == 'predict':
+        if not xenc.keep(case, 6):
+            return None
+        cs = t.fvec()
+        return '[float_bits (@predict_coefs float FNum %s %s)]' % (xenc.cq_floats(cs), F(t.fl()))
+    if not xenc.keep(case, 8 if cmd in ('ls', 'poly') else 3):
+        return None
+    tol = order = steps = alpha = None
+    if cmd == 'polytol':
+        tol = t.fl()
+    if cmd in ('poly', 'polytol'):
+        order = t.int()
+    if cmd == 'gd':
+        steps = t.int()
+        alpha = t.fl()
+    x0 = t.fl()
+    xs = t.fvec()
+    ys = t.fvec()
+    # ok n coefs std_err r2 prediction(x0); the driver prints a bare 'err' for every error kind
+    enc = ('(fun m => enc_floats (coefs m) ++ [float_bits (std_err m); float_bits (r2 m); '
+           'float_bits (@predict_coefs float FNum (coefs m) %s)])' % F(x0))
+    encr = '(fun r => match r with Ok m => 0 :: %s m | Err _ => [1] | Panic _ => [2] end)' % enc
+    X, Y = xenc.cq_floats(xs), xenc.cq_floats(ys)
+    if cmd == 'ls':
+        return '0 :: %s (@ls_fit float FNum %s %s)' % (enc, X, Y)
+    if cmd == 'poly':
+        return '%s (@poly_fit float FNum %d%%nat %s %s)' % (encr, order, X, Y)
+    if cmd == 'polytol':
+        return '%s (@poly_fit_tol float FNum %s %d%%nat %s %s)' % (encr, F(tol), order, X, Y)
+    if cmd == 'gd':
+        if steps * max(1, len(xs)) > 40000:       # keep vm_compute light
+            return None
+        return '0 :: %s (@gd_fit float FNum %s %s %s %s)' % (enc, xenc.cq_nat(steps), F(alpha), X, Y)
+    return None
+
+
+def encode_result(case, model_line):
+    t = model_line.split()
+    if case.line.startswith('predict '):
+        return [xenc.float_tok_bits(t[0])]
+    if t[0] == 'ok':
+        return [0, int(t[1])] + [xenc.float_tok_bits(x) for x in t[2:]]
+    return [{'err': 1, 'panic': 2}.get(t[0], -99)]
